@@ -240,6 +240,7 @@ def run_scripts(scripts, servertype):
         for sc_i, (script, retries, seq0) in enumerate(scripts):
             execs.clear()
             sc.set_budget(20000)
+            config.LOGWIRE = sc_i % 2 == 1          # (every other script with the wire-level logging of both sides switched on)
             layer = FaultLayer()
             net.hook = layer
             tr = [{"e": "cfg", "retries": retries, "seq0": seq0}]
@@ -310,6 +311,7 @@ def run_scripts(scripts, servertype):
             traces.append(tr)
         drv.shutdown()
         d.close()
+        config.LOGWIRE = False
     res, sc = memnet.run(main, max_steps=5000000)
     if res.get("hang") and len(traces) < len(scripts):
         raise util.MachineryError("the scheduler session hung outside a call (script %d)" % len(traces))
